@@ -13,7 +13,7 @@ import (
 )
 
 // Command lattice: equal, parent, child, sibling, textual-prefix-only, top.
-var c02Lattice = []string{"/", "/a", "/a/b", "/a/b/c", "/a/c", "/ab", "/b"}
+var c02Lattice = []string{"/", "/a", "/a/b", "/a/b/c", "/a/c", "/ab", "/ab/c", "/b"}
 
 // sliceLoader resolves proof CIDs positionally by linear search.
 type sliceLoader struct {
@@ -46,9 +46,9 @@ func (c *c02Case) Weight() int { return len(c.Cmds) }
 func c02Sub(name, dir string, qn, tn int) *engine.Sub {
 	return &engine.Sub{
 		Name: name,
-		Rule: "every assignment of lattice commands {/, /a, /a/b, /a/b/c, /a/c, /ab, /b} to the invocation and to each link of a principal-aligned chain; non-trivial = at most one link fails the reference cover relation",
+		Rule: "every assignment of lattice commands {/, /a, /a/b, /a/b/c, /a/c, /ab, /ab/c, /b} to the invocation and to each link of a principal-aligned chain; non-trivial = at most one link fails the reference cover relation",
 		Bound: func(t string) string {
-			return fmt.Sprintf("chains of 1..%d links, 7 commands per position", tierN(t, qn, tn))
+			return fmt.Sprintf("chains of 1..%d links, 8 commands per position", tierN(t, qn, tn))
 		},
 		Setup: func(string) error { chainInit(); return nil },
 		Gen: func(tier string, emit func(any) bool) {
